@@ -260,6 +260,36 @@ class Gen:
         steps.append(lb)
         return {"bodies": bodies, "steps": steps, "src": "gen-setchange"}
 
+    def governance(self):
+        """The governance emitter: chain observations naming it are never signed, whatever is already stored or
+        aggregated for that message id; operator injection is the only origin of governance VAAs."""
+        r = self.r
+        n = r.choice([1, 3, 4, 7])
+        A = self.mkset(0, n, True)
+        bodies = {"dg": {"id": "ig", "chain": 1, "gov": True}, "dh": {"id": "ig", "chain": 1, "gov": True, "ts": 1600000005},
+                  "d1": {"id": "i1", "chain": 2}}
+        members = [k for k in A["keys"] if k != "g1"]
+        need = q(n)
+        steps = [{"ev": "SetUpdate", "a": {"set": A}}]
+        how = r.choice(["inject", "inbound", "parked", "fresh"])
+        inj = {"ev": "Inject", "a": {"v": {"d": "dg", "id": "ig", "setIdx": 0, "chain": 1}}}
+        if how == "inject":
+            steps += [inj, {"ev": "Loopback?", "a": {"d": "dg"}}] + [self.obs("dg", k) for k in members[:need]]
+        elif how == "inbound":
+            steps.append(self.vaa("dg", bodies, A, sorted(r.sample(range(n), need))))
+        elif how == "parked":
+            steps += [self.obs("dg", k) for k in members[:max(0, need - 1)]]
+        # now the chain "observes" a message from the governance emitter: same body, or another body with the same id
+        for d in r.sample(["dg", "dh"], r.choice([1, 2])):
+            steps.append(self.msg(d, bodies, tx="tg"))
+            steps.append({"ev": "Loopback?", "a": {"d": d}})
+            steps += [self.obs(d, k) for k in r.sample(members, min(len(members), need))]
+        if r.random() < 0.5:
+            steps += [inj, {"ev": "Loopback?", "a": {"d": "dg"}}]
+        steps.append(self.msg("d1", bodies))
+        steps.append({"ev": "Loopback?", "a": {"d": "d1"}})
+        return {"bodies": bodies, "steps": steps, "src": "gen-gov"}
+
     def cleanup(self):
         """Histories of ticks and elapsed durations over reachable aggregation states (C14)."""
         r = self.r
@@ -267,11 +297,15 @@ class Gen:
         A = self.mkset(0, n, True)
         bodies = {"d1": {"id": "i1", "chain": 2}, "d2": {"id": "i2", "chain": 4}, "d3": {"id": "i3", "chain": 255}}
         steps = [{"ev": "SetUpdate", "a": {"set": A}}]
+        if r.random() < 0.25:
+            steps.insert(0, {"ev": "ReqCap", "a": {"n": r.choice([0, 1, 2])}})  # outbound request queue (nearly) full
         members = [k for k in A["keys"] if k != "g1"]
         need = q(n)
         # d1: observed; quorum reached or not;  d2: never observed locally (parked);  d3: observed + VAA arrives from a peer
         plan = r.choice(["pending", "done", "late", "parked", "mixed", "mixed"])
         if plan in ("pending", "mixed", "late"):
+            if members and r.random() < 0.4:
+                steps.append(self.obs("d1", r.choice(members)))  # a peer's observation arrives first
             steps.append(self.msg("d1", bodies))
             if r.random() < 0.8:
                 steps.append({"ev": "Loopback", "a": {"d": "d1"}})
@@ -527,6 +561,8 @@ def diff_components(rej, line):
             comps.add("agg-our")
         if norm(a["snap"]) != norm(b["snap"][0] if b["snap"] else "Nil"):
             comps.add("agg-snap")
+        if norm(a.get("tx")) != norm(b["tx"][0] if b.get("tx") else "Nil"):
+            comps.add("agg-tx")  # the transaction a later re-observation request will name
     sdb, ldb = spec.get("db", {}) or {}, s.get("db", {}) or {}
     if isinstance(sdb, list):
         sdb = {}
@@ -564,7 +600,7 @@ def attribute(rej, line):
     if "panic" in comps:
         props.add("C13")
         return props, comps
-    if ev in ("CleanupTick", "Advance") or "agg-retry" in comps:
+    if ev in ("CleanupTick", "Advance") or comps & {"agg-retry", "agg-tx"}:
         props.add("C14")
     invalid_obs = False
     if ev == "Observation":
